@@ -156,7 +156,8 @@ class InvariantMonitor(Monitor):
         if old != new:
             self.transitions.append((CLOCK.t, itask.identity, old, new))
             self.res.sim.log('state', itask.identity, old, '->', new)
-            if not self.commands and not forced:
+            loading = self.h.iterations == 0   # restart: pool being reloaded
+            if not self.commands and not forced and not loading:
                 self.check_edge(itask, old, new)
         # runahead release (C04)
         if before[3] and not st.is_runahead:
@@ -282,18 +283,33 @@ class InvariantMonitor(Monitor):
                 pts.update(q for q in s.points if base <= q <= base + dur)
             limit = max(pts) if pts else base
         # largest future offset among pooled tasks
+        # cylc keeps the future offset per task definition (the largest seen
+        # by any instance), so use the static per-task maximum: an upper
+        # bound, hence a sound release limit
         fut = 0
-        for t, p in pool_items:
-            for s, e in self.model._lines.get(t, []):
-                from .gen import atoms
-                for a in atoms(e):
-                    if a.kind == 'rel' and a.off > 0 and (
-                            a.point(p, prog) >= prog.icp):
-                        fut = max(fut, a.off)
+        for t in {t for t, _ in pool_items}:
+            fut = max(fut, self.static_future_offset(t))
         limit += fut
         if limit > stop:
             limit = stop
         return limit
+
+    def static_future_offset(self, t):
+        cache = self.__dict__.setdefault('_sfo', {})
+        if t in cache:
+            return cache[t]
+        from .gen import atoms
+        prog = self.prog
+        best = 0
+        for s, e in self.model._lines.get(t, []):
+            pts = [p for p in s.points if self.model.valid(t, p)]
+            for a in atoms(e):
+                for p in pts:
+                    q = a.point(p, prog)
+                    if q >= prog.icp and q > p:
+                        best = max(best, q - p)
+        cache[t] = best
+        return best
 
     def on_runahead_release(self, itask):
         schd = self.h.schd
@@ -549,18 +565,15 @@ class InvariantMonitor(Monitor):
         n_tr = len(self.transitions)
         world = self.res.world
         busy = (not world.quiescent()) or schd.proc_pool.is_not_done()
-        if busy or n_tr != getattr(self, '_last_ntr', -1):
+        rc = self.__dict__.setdefault('_ready_count', {})
+        if busy or n_tr != getattr(self, '_last_ntr', -1) or (
+                schd.is_paused or schd.stop_mode or schd.is_stalled
+                or schd.reload_pending):
             self._last_ntr = n_tr
-            self._idle = 0
+            rc.clear()
             return
-        self._idle = getattr(self, '_idle', 0) + 1
-        if self._idle < self.K_IDLE:
-            return
-        if schd.is_paused or schd.stop_mode or schd.is_stalled or (
-                schd.reload_pending):
-            return
-        self._idle = 0
         self.res.sim.probe('quiescence_checked')
+        seen = set()
         now = CLOCK.epoch + CLOCK.t
         items = [self.ident(i) for i in flat if self.known(i)]
         limit = self.runahead_limit_model([q for _, q in items], items)
@@ -577,6 +590,12 @@ class InvariantMonitor(Monitor):
                    for tm in i.try_timers.values()):
                 continue
             t, p = self.ident(i)
+            # the task itself must have been ready through K idle iterations
+            seen.add(i.identity)
+            rc[i.identity] = rc.get(i.identity, 0) + 1
+            if rc[i.identity] < self.K_IDLE:
+                continue
+            rc[i.identity] = 0
             if st.is_runahead:
                 if limit is not None and p <= limit:
                     self.v('C03', 'ready_task_left_runahead_limited', {
@@ -586,6 +605,9 @@ class InvariantMonitor(Monitor):
                 continue
             self.v('C03', 'ready_task_left_unsubmitted', {
                 'task': i.identity, 'queued': st.is_queued})
+        for k in list(rc):
+            if k not in seen:
+                del rc[k]
 
     def check_db_pool(self, h, flat):
         dbpath = h.schd.workflow_db_mgr.pri_path
